@@ -4,3 +4,9 @@ import OsacaVerif.Model.RegDep
 import OsacaVerif.Spec.RegUniverse
 import OsacaVerif.Lemmas.Text
 import OsacaVerif.Props.C12
+import OsacaVerif.Model.Cache
+import OsacaVerif.Model.CacheName
+import OsacaVerif.Spec.CacheSpec
+import OsacaVerif.Lemmas.Cache
+import OsacaVerif.Lemmas.CacheName
+import OsacaVerif.Props.C17
